@@ -244,6 +244,7 @@ def run_job(args):
             ctx = Ctx()
             ctx.eng = eng
             ctx.spec = spec
+            ctx.opts = opts
             prop.prepare(spec, ctx)          # builds ctx.env (name -> proxy), ctx.consts (name -> z3 const), ctx.int_names
             for c in getattr(ctx, "assume", []):
                 eng.add(c)
@@ -251,8 +252,31 @@ def run_job(args):
             ctx.outs = outs
             recs = []
             for vc in prop.vcs(spec, ctx, outs):
-                if vc.query is None:          # decided numerically / structurally by the harness (ground case)
+                if vc.query is None and getattr(vc, "solve", None) is None:          # decided numerically / structurally by the harness (ground case)
                     recs.append((vc, "violation-concrete" if vc.info.get("failed") else "unsat", None))
+                    continue
+                if getattr(vc, "solve", None) is not None:
+                    # an obligation with its own decision procedure (e.g. the QF_FP exactness query): returns a verdict and, for sat, inputs
+                    t_s = time.time()
+                    r, given = vc.solve()
+                    eng.nq += 1
+                    eng.tq += time.time() - t_s
+                    rec = None
+                    if r == "sat":
+                        import mpmath as _mp
+                        enc = {k: ["hex", float(v).hex()] for k, v in given.items()}
+                        val = {k: _mp.mpf(float(v)) for k, v in given.items()}
+                        try:
+                            couts = [decode_out(o) for o in run_concrete(spec, enc)]
+                            why = vc.judge(val, couts)
+                        except Exception as e:  # noqa
+                            why = None
+                        if why:
+                            r, rec = "violation", {"attributed": None, "inputs": enc, "inputs_rational": {k: repr(float(v)) for k, v in given.items()},
+                                                   "observed": [{k: v for k, v in o.items() if k != "mp"} for o in couts], "why": why}
+                        else:
+                            r, rec = "unreproduced", {"tried": [{"inputs": {k: repr(float(v)) for k, v in given.items()}}]}
+                    recs.append((vc, r, rec))
                     continue
                 r = eng.check(vc.query)
                 rec = None
